@@ -4,7 +4,10 @@
             sshsb SSHSandbox.initSequence + newEOFTag
                                          (app/modules/pipelinem/pipservices/sandboxes/sshsb/sandbox.go)
           as byte-string functions of (environment association list IN THE ORDER THE GO MAP
-          ITERATION PRODUCED, terminator tag, entrypoint / SSH certificate);
+          ITERATION PRODUCED, entrypoint / SSH certificate).  CURRENT code: every value is emitted
+          as a single-quoted assignment word  K='..'  with ' written as '\''  ([ssh_script],
+          [dcmd_script]).  The earlier here-document flavours (quoted delimiter: [.._heredoc];
+          unquoted: [ssh_script_old]) are kept as regression witnesses;
       (b) envs.Environments: the name pattern ^[a-zA-Z]+([_a-zA-Z]+)?$ and Set / SetAll;
       (c) a mini-sh: an evaluator for exactly the script shape the builders produce, with the POSIX
           here-document rules (quoted delimiter: literal body; unquoted: $name ${name} $(..) `..`
@@ -106,9 +109,21 @@ Definition env_block (quoted : bool) (tag : bytes) (kv : bytes * bytes) : bytes 
          :: EXPORT_SP ++ fst kv ++ [NL].
 Definition env_section (quoted : bool) (tag : bytes) (e : env) : bytes := flat_map (env_block quoted tag) e.
 
+(** CURRENT builders: key + "='" + ReplaceAll(value, "'", "'\\''") + "'\n" + "export " + key + "\n" *)
+Definition sq_escape (v : bytes) : bytes :=
+  flat_map (fun c => if c =? SQ then [SQ; BSL; SQ; SQ] else [c]) v.
+Definition sq_word (v : bytes) : bytes := SQ :: sq_escape v ++ [SQ].
+Definition env_block_sq (kv : bytes * bytes) : bytes :=
+  fst kv ++ EQS :: sq_word (snd kv) ++ NL :: EXPORT_SP ++ fst kv ++ [NL].
+Definition env_section_sq (e : env) : bytes := flat_map env_block_sq e.
+
 (** sshsb: header, environment section, entrypoint line. *)
-Definition ssh_script (e : env) (tag entry : bytes) : bytes :=
+Definition ssh_script (e : env) (entry : bytes) : bytes :=
+  HEADER ++ env_section_sq e ++ entry ++ [NL].
+(** sshsb before the single-quote repair (here-document, quoted delimiter, tag redrawn) ... *)
+Definition ssh_script_heredoc (e : env) (tag entry : bytes) : bytes :=
   HEADER ++ env_section true tag e ++ entry ++ [NL].
+(** ... and before the F24 repair (delimiter not quoted). *)
 Definition ssh_script_old (e : env) (tag entry : bytes) : bytes :=
   HEADER ++ env_section false tag e ++ entry ++ [NL].
 
@@ -116,7 +131,7 @@ Definition ssh_script_old (e : env) (tag entry : bytes) : bytes :=
 Fixpoint contains (s t : bytes) : bool :=
   has_prefix s t || match s with [] => false | _ :: s' => contains s' t end.
 
-(** newEOFTag: redraw until no value contains the tag.  [draws] is the sequence of strings the
+(** newEOFTag (here-document flavour of sshsb only): redraw until no value contains the tag.  [draws] is the sequence of strings the
     random source delivers; [None] = the loop is still running when the draws are used up. *)
 Definition collides (tag : bytes) (e : env) : bool := existsb (fun kv => contains (snd kv) tag) e.
 Fixpoint new_eof_tag (draws : list bytes) (e : env) : option bytes :=
@@ -140,7 +155,8 @@ Definition go_tag (t : bytes) : bool :=
   end.
 
 (** dcmd: header, environment section, then the SSH-certificate block (two UNQUOTED
-    here-documents appending to ~/.ssh — a neighbouring defect, modelled only as bytes). *)
+    here-documents appending to ~/.ssh, delimited by a random tag — a neighbouring defect,
+    modelled only as bytes). *)
 Definition is_nil (b : bytes) : bool := match b with [] => true | _ => false end.
 Definition cert_tail (tag pub sec : bytes) : res bytes :=
   if is_nil pub && is_nil sec then Ok []
@@ -149,6 +165,13 @@ Definition cert_tail (tag pub sec : bytes) : res bytes :=
   else Ok (MKDIR_SSH ++ CAT_HERE ++ tag ++ TO_PUB ++ pub ++ NL :: tag ++ NL :: CHMOD_PUB
            ++ CAT_HERE ++ tag ++ TO_SEC ++ sec ++ NL :: tag ++ NL :: CHMOD_SEC).
 Definition dcmd_script (e : env) (tag pub sec : bytes) : res bytes :=
+  match cert_tail tag pub sec with
+  | Ok t => Ok (HEADER ++ env_section_sq e ++ t)
+  | Err => Err
+  | Panic => Panic
+  end.
+(** dcmd before the single-quote repair: the tag was drawn once and NOT compared with the values. *)
+Definition dcmd_script_heredoc (e : env) (tag pub sec : bytes) : res bytes :=
   match cert_tail tag pub sec with
   | Ok t => Ok (HEADER ++ env_section true tag e ++ t)
   | Err => Err
@@ -200,6 +223,7 @@ Inductive mode :=
 | Top
 | InHere (k tag : bytes) (quoted : bool) (acc : list bytes)   (* body lines so far, newest first *)
 | AfterHere (k body : bytes)                                   (* body closed; waiting for the ")" line *)
+| InSQ (k acc : bytes)            (* inside the single-quoted part of K='..; acc = value so far, reversed *)
 | Dead (f : failure).
 
 (** *** Assignment line  K=$(cat <<'TAG'   or   K=$(cat <<TAG *)
@@ -235,6 +259,34 @@ Definition parse_assign (line : bytes) : option (bytes * bytes * bool) :=
       end
     else None
   | None => None
+  end.
+
+(** *** Assignment word made of single-quoted pieces and \' :  K='..'\''..'
+    Between single quotes every byte is literal (a newline too: the word continues on the next
+    line); outside them only  '  (opens a quoted piece) and  \'  (a literal quote) are modelled;
+    the word ends at the end of the line.  [acc] is the value so far, reversed. *)
+Inductive scan_res := WDone (acc : bytes) | WOpen (acc : bytes) | WUnsup.
+Fixpoint scan_word (insq : bool) (acc : bytes) (l : bytes) : scan_res :=
+  match l with
+  | [] => if insq then WOpen acc else WDone acc
+  | c :: r =>
+    if insq then (if c =? SQ then scan_word false acc r else scan_word true (c :: acc) r)
+    else if c =? SQ then scan_word true acc r
+    else if c =? BSL then
+      match r with
+      | d :: r' => if d =? SQ then scan_word false (SQ :: acc) r' else WUnsup
+      | [] => WUnsup
+      end
+    else WUnsup
+  end.
+(** What the shell makes of a whole word (possibly containing newlines inside quotes). *)
+Definition sh_unquote (w : bytes) : option bytes :=
+  match scan_word false [] w with WDone acc => Some (rev acc) | _ => None end.
+
+Definition parse_sq_assign (line : bytes) : option (bytes * bytes) :=
+  match split_at EQS line with
+  | Some (k, c :: l) => if is_name k && (c =? SQ) then Some (k, l) else None
+  | _ => None
   end.
 
 (** *** Expansion of one line of an UNQUOTED here-document body *)
@@ -341,16 +393,27 @@ Definition heredoc_body (quoted : bool) (st : env) (ls : list bytes) : option (b
   if quoted then Some (join_nl ls, []) else expand_lines st ls.
 
 (** *** The line machine *)
+Definition after_scan (k : bytes) (s : shst) (r : scan_res) : mode * shst :=
+  match r with
+  | WDone acc => (Top, bind k (rev acc) s)
+  | WOpen acc => (InSQ k (NL :: acc), s)       (* the newline belongs to the value *)
+  | WUnsup => (Dead FUnsup, s)
+  end.
+
 Definition step_top (s : shst) (line : bytes) : mode * shst :=
   if is_nil line then (Top, s)
   else match parse_assign line with
        | Some (k, tag, q) => (InHere k tag q [], s)
        | None =>
+         match parse_sq_assign line with
+         | Some (k, l) => after_scan k s (scan_word true [] l)
+         | None =>
          if bytes_eqb line SET || has_prefix line SET_SP then (Top, s)   (* set -e / set +x: options are not modelled *)
          else match strip_prefix EXPORT_SP line with
               | Some k => if is_name k then (Top, add_export k s) else (Top, add_effect (Cmd line) s)
               | None => (Top, add_effect (Cmd line) s)
               end
+         end
        end.
 
 Definition step (ms : mode * shst) (line : bytes) : mode * shst :=
@@ -367,6 +430,7 @@ Definition step (ms : mode * shst) (line : bytes) : mode * shst :=
   | AfterHere k body =>
     if bytes_eqb line [RPAR] then (Top, bind k (strip_nl body) s)
     else (AfterHere k body, add_effect (Exec line) s)   (* a command inside K=$( .. ): break-out *)
+  | InSQ k acc => after_scan k s (scan_word true acc line)
   | Dead f => (Dead f, s)
   end.
 
@@ -377,15 +441,20 @@ Definition finish (ms : mode * shst) : outcome :=
   match fst ms with
   | Top => Done (snd ms)
   | Dead FUnsup => Unsup
-  | _ => Abort          (* end of input inside K=$( .. *)
+  | _ => Abort          (* end of input inside K=$( ..  or inside K='.. *)
   end.
 
 (** Feed [script] to the shell whose state is [s]. *)
 Definition sh_run (s : shst) (script : bytes) : outcome := finish (run_lines (split_lines script) (Top, s)).
 
-(** The state in which everything after the environment section runs, if the values arrive verbatim. *)
-Definition after_env (e : env) (s : shst) : shst :=
-  fold_left (fun s kv => add_export (fst kv) (bind (fst kv) (strip_nl (snd kv)) s)) e s.
+(** The state in which everything after the environment section runs, if the values arrive
+    verbatim: every key bound to [f value] and exported, in order.  CURRENT builders: [f] is the
+    identity ([after_env_exact]); here-document flavours: command substitution strips the trailing
+    newlines ([after_env]). *)
+Definition after_env_with (f : bytes -> bytes) (e : env) (s : shst) : shst :=
+  fold_left (fun s kv => add_export (fst kv) (bind (fst kv) (f (snd kv)) s)) e s.
+Definition after_env (e : env) (s : shst) : shst := after_env_with strip_nl e s.
+Definition after_env_exact (e : env) (s : shst) : shst := after_env_with (fun v => v) e s.
 
 (** Hypotheses of the theorems, as boolean functions. *)
 Definition no_tag_line (tag v : bytes) : bool := forallb (fun l => negb (bytes_eqb l tag)) (split_lines v).
